@@ -103,6 +103,9 @@ type customCfg struct {
 	// IsBoolFalse: the IsBoolFlag method is present (isbool) but answers false: the value then takes a
 	// value like any other option
 	IsBoolFalse bool `json:"isboolfalse"`
+	// MapKind: the value is a Go map with value receivers (not comparable, so unusable as a map key); only
+	// with isbool=false and isdef=false
+	MapKind bool `json:"mapkind"`
 }
 
 type declSpec struct {
@@ -177,6 +180,13 @@ type request struct {
 	Root    *cmdSpec     `json:"root"`
 	Argv    []B          `json:"argv"`
 	Repeat  int          `json:"repeat"`
+	// Before: an earlier life of the same application object: its root is first given this spec and run on this
+	// command line (whatever happens is swallowed), then the root's Spec field is assigned the case's spec and the
+	// case proper is run
+	Before *struct {
+		Spec B   `json:"spec"`
+		Argv []B `json:"argv"`
+	} `json:"before"`
 	// Argv0: what is passed to Run as args[0] (the program name as the shell gives it); default: the root's name
 	Argv0 *B `json:"argv0"`
 
@@ -210,6 +220,8 @@ type runOut struct {
 	Values  map[string][]B  `json:"values"`
 	Sbu     map[string]bool `json:"sbu"`
 	Logs    map[string][]B  `json:"logs"`
+	// Stdout: what the library wrote to its OUTPUT stream (absent when nothing), same line processing as stderr
+	Stdout *[]B `json:"stdout,omitempty"`
 	// ErrLine: when Run returned an error, whether the first line of the error stream is "Error: " followed
 	// by that error's own text and a newline, byte for byte
 	ErrLine *bool `json:"errline,omitempty"`
@@ -335,11 +347,28 @@ func (v cvB0D) IsDefault() bool { return v.core.isDefVal }
 func (v cv0CD) IsDefault() bool { return v.core.isDefVal }
 func (v cvBCD) IsDefault() bool { return v.core.isDefVal }
 
+// the same with a Go map as the value's kind and value receivers (like `type labels map[string]string`): such a
+// flag.Value is not comparable and cannot be used as a map key
+type mv000 map[string]*core
+type mv0C0 map[string]*core
+
+func (m mv000) Set(s string) error { return m["c"].Set(s) }
+func (m mv000) String() string     { return "custom" }
+func (m mv0C0) Set(s string) error { return m["c"].Set(s) }
+func (m mv0C0) String() string     { return "custom" }
+func (m mv0C0) Clear()             { m["c"].doClear() }
+
 func newCustom(cfg *customCfg) (flag.Value, *core) {
 	if cfg == nil {
 		cfg = &customCfg{}
 	}
 	c := &core{log: []string{}, isDefVal: cfg.IsDefVal, boolFalse: cfg.IsBoolFalse}
+	if cfg.MapKind && !cfg.IsBool && !cfg.IsDef {
+		if cfg.Clear {
+			return mv0C0{"c": c}, c
+		}
+		return mv000{"c": c}, c
+	}
 	switch {
 	case !cfg.IsBool && !cfg.Clear && !cfg.IsDef:
 		return cv000{c}, c
@@ -456,6 +485,19 @@ func boolDest(d *declSpec, shared map[string]interface{}) *bool {
 	return p
 }
 
+// destOf: a fresh destination, or the one registered under the declaration's destshare key (kinds string, int, strings)
+func destOf[T any](d *declSpec, shared map[string]interface{}) *T {
+	if d.DestShare == "" || shared == nil {
+		return new(T)
+	}
+	if p, ok := shared["dest:"+d.DestShare].(*T); ok {
+		return p
+	}
+	p := new(T)
+	shared["dest:"+d.DestShare] = p
+	return p
+}
+
 func declare(cmd *cli.Cmd, d *declSpec, path string, sharedDefs map[string]interface{}) *varRec {
 	name, desc, env := string(d.Name), string(d.Desc), string(d.Env)
 	isOpt := false
@@ -515,13 +557,13 @@ func declare(cmd *cli.Cmd, d *declSpec, path string, sharedDefs map[string]inter
 		if conv {
 			var ptr *string
 			switch {
-			case isOpt && d.Ptr:
-				ptr = new(string)
+			case isOpt && (d.Ptr || d.DestShare != ""):
+				ptr = destOf[string](d, sharedDefs)
 				cmd.StringOptPtr(ptr, name, def, desc)
 			case isOpt:
 				ptr = cmd.StringOpt(name, def, desc)
-			case d.Ptr:
-				ptr = new(string)
+			case d.Ptr || d.DestShare != "":
+				ptr = destOf[string](d, sharedDefs)
 				cmd.StringArgPtr(ptr, name, def, desc)
 			default:
 				ptr = cmd.StringArg(name, def, desc)
@@ -536,10 +578,9 @@ func declare(cmd *cli.Cmd, d *declSpec, path string, sharedDefs map[string]inter
 			p = cli.StringArg{Name: name, Desc: desc, EnvVar: env, Value: def, HideValue: d.Hide, SetByUser: sbu}
 		}
 		var ptr *string
-		if d.Ptr {
-			var v string
-			ptr = &v
-			cmd.StringPtr(&v, p)
+		if d.Ptr || d.DestShare != "" {
+			ptr = destOf[string](d, sharedDefs)
+			cmd.StringPtr(ptr, p)
 		} else {
 			ptr = cmd.String(p)
 		}
@@ -550,13 +591,13 @@ func declare(cmd *cli.Cmd, d *declSpec, path string, sharedDefs map[string]inter
 		if conv {
 			var ptr *int
 			switch {
-			case isOpt && d.Ptr:
-				ptr = new(int)
+			case isOpt && (d.Ptr || d.DestShare != ""):
+				ptr = destOf[int](d, sharedDefs)
 				cmd.IntOptPtr(ptr, name, def, desc)
 			case isOpt:
 				ptr = cmd.IntOpt(name, def, desc)
-			case d.Ptr:
-				ptr = new(int)
+			case d.Ptr || d.DestShare != "":
+				ptr = destOf[int](d, sharedDefs)
 				cmd.IntArgPtr(ptr, name, def, desc)
 			default:
 				ptr = cmd.IntArg(name, def, desc)
@@ -571,10 +612,9 @@ func declare(cmd *cli.Cmd, d *declSpec, path string, sharedDefs map[string]inter
 			p = cli.IntArg{Name: name, Desc: desc, EnvVar: env, Value: def, HideValue: d.Hide, SetByUser: sbu}
 		}
 		var ptr *int
-		if d.Ptr {
-			var v int
-			ptr = &v
-			cmd.IntPtr(&v, p)
+		if d.Ptr || d.DestShare != "" {
+			ptr = destOf[int](d, sharedDefs)
+			cmd.IntPtr(ptr, p)
 		} else {
 			ptr = cmd.Int(p)
 		}
@@ -624,13 +664,13 @@ func declare(cmd *cli.Cmd, d *declSpec, path string, sharedDefs map[string]inter
 		if conv {
 			var ptr *[]string
 			switch {
-			case isOpt && d.Ptr:
-				ptr = new([]string)
+			case isOpt && (d.Ptr || d.DestShare != ""):
+				ptr = destOf[[]string](d, sharedDefs)
 				cmd.StringsOptPtr(ptr, name, def, desc)
 			case isOpt:
 				ptr = cmd.StringsOpt(name, def, desc)
-			case d.Ptr:
-				ptr = new([]string)
+			case d.Ptr || d.DestShare != "":
+				ptr = destOf[[]string](d, sharedDefs)
 				cmd.StringsArgPtr(ptr, name, def, desc)
 			default:
 				ptr = cmd.StringsArg(name, def, desc)
@@ -645,10 +685,9 @@ func declare(cmd *cli.Cmd, d *declSpec, path string, sharedDefs map[string]inter
 			p = cli.StringsArg{Name: name, Desc: desc, EnvVar: env, Value: def, HideValue: d.Hide, SetByUser: sbu}
 		}
 		var ptr *[]string
-		if d.Ptr {
-			var v []string
-			ptr = &v
-			cmd.StringsPtr(&v, p)
+		if d.Ptr || d.DestShare != "" {
+			ptr = destOf[[]string](d, sharedDefs)
+			cmd.StringsPtr(ptr, p)
 		} else {
 			ptr = cmd.Strings(p)
 		}
@@ -1039,6 +1078,21 @@ func runCase(req *request, stderr *bytes.Buffer) *runOut {
 			argv0 = string(*req.Argv0)
 		}
 		argv := append([]string{argv0}, strs(req.Argv)...)
+		if req.Before != nil {
+			final := app.Spec
+			app.Spec = string(req.Before.Spec)
+			func() {
+				defer func() { _ = recover() }()
+				_ = app.Run(append([]string{argv0}, strs(req.Before.Argv)...))
+			}()
+			app.Spec = final
+			r.trace = []B{}
+			r.values = nil
+			r.sbu = nil
+			if stderr != nil {
+				stderr.Reset()
+			}
+		}
 		// repeat > 1: the same application is run again on the same command line; what is
 		// reported is the last run
 		for i := 1; i < req.Repeat; i++ {
@@ -1123,11 +1177,17 @@ func opRun(req *request) interface{} {
 	cleanup := applyEnv(names, req.Env)
 	defer cleanup()
 
-	var buf bytes.Buffer
-	restore := cli.VerifSetIO(&buf, exitStub)
+	var buf, outBuf bytes.Buffer
+	restore := cli.VerifSetIOSplit(&buf, &outBuf, exitStub)
 	defer restore()
 
-	return runCase(req, &buf)
+	res := runCase(req, &buf)
+	if outBuf.Len() > 0 {
+		// the library is not supposed to write anything to its output stream
+		lines := procStderr(outBuf.String())
+		res.Stdout = &lines
+	}
+	return res
 }
 
 /******************************************************************************/
